@@ -545,6 +545,33 @@ class C11Executor(_verify.Executor):
         st.ghost[key] = ref
         return VRef(ref)
 
+    # -- a configuration handed in by the caller MAY be the module-level default object itself (that is what every in-library
+    #    caller passes): `param is DEFAULT` is neither true nor false -- a fresh Boolean that, when true, makes the two objects
+    #    agree on every field.  `==` of two instances is the dataclass field-tuple equality.
+    def compare(self, st, op, a, b, node):
+        from pyvc.values import VRef
+        if op in ("Is", "IsNot", "Eq", "NotEq") and isinstance(a, VRef) and isinstance(b, VRef) and a.ref != b.ref:
+            try:
+                cfg = {v for k, v in st.ghost.items() if isinstance(k, str) and k.startswith("c11!config:")}
+                oa, ob = st.heap.get(a.ref), st.heap.get(b.ref)
+                if len({a.ref, b.ref} & cfg) == 1 and oa is not None and ob is not None and oa.kind == ob.kind == "obj" and oa.cls == ob.cls \
+                        and oa.cls in self._frozen_classes() and set(oa.data) == set(ob.data):
+                    other = ob if a.ref in cfg else oa
+                    same = z3.And([ops.eq_term(oa.data[f], ob.data[f]) for f in sorted(oa.data)])
+                    cls = self.module.classes[oa.cls]
+                    import ast as _ast
+                    own_eq = any(isinstance(n, _ast.FunctionDef) and n.name in ("__eq__", "__ne__") for n in cls.body) or any(
+                        isinstance(d, _ast.Call) and any(k.arg == "eq" for k in d.keywords) for d in cls.decorator_list)
+                    if op in ("Eq", "NotEq") and not own_eq:
+                        return [(st, VBool(same if op == "Eq" else z3.Not(same)))]
+                    if op in ("Is", "IsNot") and not other.fresh:
+                        alias = z3.Bool(fresh_name("is_default_object"))
+                        st.assume(z3.Implies(alias, same))
+                        return [(st, VBool(alias if op == "Is" else z3.Not(alias)))]
+            except (ops.Unsupported, KeyError, AttributeError, TypeError):
+                pass
+        return super().compare(st, op, a, b, node)
+
     def e_Name(self, n, st):
         if st.lookup(n.id) is None and n.id in self.module.assigns:
             try:
